@@ -58,6 +58,7 @@ type Type struct {
 	ImplCodes []string        // codes the @implements lines must produce on the type's line
 	File      *File
 	Local     bool // a function-local type that merely shares a name (decoy)
+	DocLines  []string // rendered doc comment (kept so that a twin declaration is byte-identical)
 }
 
 type Func struct {
@@ -75,6 +76,7 @@ type Pkg struct {
 	Name    string // declared package name
 	Files   []*File
 	Imports map[string]bool // direct imports of the non-test files (computed at render)
+	AllImports map[string]bool // direct imports of any file incl. tests (computed at render)
 }
 
 type File struct {
@@ -589,6 +591,21 @@ func evalLine(c *ctx, l *Line, effT func(*Type) bool, effF func(*Func) bool) []c
 			feat = l.Feature
 		}
 		free := func(cat string) bool { return u.Free != nil && u.Free[cat] }
+		// the statement speaks of items of the same package and of DIRECTLY imported packages; anything reached only
+		// through an intermediate package is FREE
+		var tp *Pkg
+		if u.T != nil && !u.T.Local {
+			tp = u.T.Pkg
+		}
+		if u.Fn != nil && u.Fn.Pkg != nil {
+			tp = u.Fn.Pkg
+		}
+		if tp != nil && tp.Path != f.Pkg.Path && !f.Pkg.AllImports[tp.Path] {
+			for _, cat := range []string{IMM, CTOR, TONL, PKGO} {
+				out = append(out, cand{line: l, cat: cat, free: true, feature: "indirect-import", class: cat + "/indirect-import"})
+			}
+			continue
+		}
 		switch u.Kind {
 		case UFieldAssign, UFieldOpAssign, UFieldIncDec, UFieldIndexAssign, URecvAssign, URecvIncDec:
 			t := u.T
